@@ -52,6 +52,14 @@ Definition spell (t : tok) : spelling :=
   | _ => []
   end.
 
+(* Behaviours of the code before a repair, kept as switches of the model ([fixed] = all off = the code as it is):
+   [q_single_eor] before fixes/C09-6.patch: find_args crosses at most one end-of-replacement marker per token read;
+   [q_nl_no_arg] before fixes/C09-7.patch: `F(<newline>)` of a macro without parameters is one argument;
+   [q_plm_ws] before fixes/C09-8.patch: do_concat deletes the white space next to a placemarker operand,
+   token_stringify writes one space per white-space TOKEN and # strips one white-space token at each end. *)
+Record quirks := mkq { q_single_eor : bool; q_nl_no_arg : bool; q_plm_ws : bool }.
+Definition fixed : quirks := mkq false false false.
+
 (* ---------- macros ---------- *)
 (* m_params = None: object-like; Some ps: function-like, the last element is [dots] for `...` *)
 Record macro := mkmacro { m_params : option (list spelling); m_body : list tok }.
@@ -116,17 +124,27 @@ Fixpoint escape (s : spelling) : spelling :=
   | c :: r => if (c =? dq) || (c =? bs) then bs :: c :: escape r else c :: escape r
   end.
 Definition str_piece (t : tok) : spelling :=
-  if is_ws t then [32]
-  else match t with
-       | TTok KStr s | TTok KChr s => escape s
-       | _ => spell t
-       end.
-Definition stringify_toks (ts : list tok) : tok := TTok KStr (dq :: flat_map str_piece ts ++ [dq]).
+  match t with
+  | TTok KStr s | TTok KChr s => escape s
+  | _ => spell t
+  end.
+(* C11 6.10.3.2p2: each run of white space between the tokens is one space ([old]: one space per white-space token) *)
+Fixpoint str_body (old prev_ws : bool) (ts : list tok) : spelling :=
+  match ts with
+  | [] => []
+  | t :: r => if is_ws t then (if negb old && prev_ws then [] else [32]) ++ str_body old true r
+              else str_piece t ++ str_body old false r
+  end.
+Definition stringify_toks (old : bool) (ts : list tok) : tok := TTok KStr (dq :: str_body old false ts ++ [dq]).
 
-(* the two del_tokens / VARR_POP calls before token_stringify: one leading, one trailing white space *)
+(* white space before the first and after the last token of a # operand is deleted ([old]: one token at each end) *)
 Definition strip_ws1 (l : list tok) : list tok :=
   let l1 := match l with t :: r => if is_ws t then r else l | [] => [] end in
   match rev l1 with t :: r => if is_ws t then rev r else l1 | [] => [] end.
+Fixpoint drop_ws (l : list tok) : list tok :=
+  match l with t :: r => if is_ws t then drop_ws r else l | [] => [] end.
+Definition strip_ws (old : bool) (l : list tok) : list tok :=
+  if old then strip_ws1 l else rev (drop_ws (rev (drop_ws l))).
 
 (* ---------- token_concat: re-lexing of the two spellings put together ---------- *)
 Definition is_digit c := (48 <=? c) && (c <=? 57).
@@ -176,7 +194,7 @@ Definition is_plm (t : tok) : bool := match t with TPlm => true | _ => false end
 (* the list without its first token when that is white space *)
 Definition skip1 (l : list tok) : list tok := match l with w :: l' => if is_ws w then l' else l | [] => l end.
 
-Fixpoint dc (todo done : list tok) : option (list tok) :=
+Fixpoint dc (old : bool) (todo done : list tok) : option (list tok) :=
   match todo with
   | [] => Some done
   | t :: l =>
@@ -189,22 +207,24 @@ Fixpoint dc (todo done : list tok) : option (list tok) :=
               | [] => None                                (* assert (k >= 0) *)
               | tk :: l2 =>
                   if is_plm tk then
-                    if is_plm tj then dc (skip1 l2) (TPlm :: skip1 r)      (* both empty: a placemarker again *)
-                    else dc (skip1 l2) (tj :: r)                           (* empty ## b = b *)
-                  else if is_plm tj then dc (skip1 l) (skip1 r)            (* a ## empty = a (a is visited next) *)
+                    if is_plm tj then dc old (if old then skip1 l2 else l2) (TPlm :: if old then skip1 r else r)
+                                                                           (* both empty: a placemarker again *)
+                    else dc old (if old then skip1 l2 else l2) (tj :: r)   (* empty ## b = b *)
+                  else if is_plm tj then dc old (skip1 l) (if old then skip1 r else r)
+                                                                           (* a ## empty = a (a is visited next) *)
                   else match token_concat tk tj with
-                       | Some t' => dc l2 (t' :: r)
+                       | Some t' => dc old l2 (t' :: r)
                        | None => None                    (* wrong result of ## *)
                        end
               end
           end
-      | _ => dc l (t :: done)
+      | _ => dc old l (t :: done)
       end
   end.
 
 Definition plm_to_sp (t : tok) : tok := match t with TPlm => TSp | _ => t end.
-Definition do_concat (tokens : list tok) : option (list tok) :=
-  match dc (rev tokens) [] with
+Definition do_concat (old : bool) (tokens : list tok) : option (list tok) :=
+  match dc old (rev tokens) [] with
   | Some l => Some (map plm_to_sp l)
   | None => None
   end.
@@ -230,7 +250,7 @@ Definition paste_operand (prev rest : list tok) : bool :=
 Definition empty_arg (a : list tok) : bool :=
   match a with [] => true | [t] => is_ws t | _ => false end.
 
-Fixpoint proc_repl (ps : list spelling) (prev rest : list tok) (shp : option nat)
+Fixpoint proc_repl (old : bool) (ps : list spelling) (prev rest : list tok) (shp : option nat)
          (args : list (list tok)) (buf : list tok) : pr_result :=
   match rest with
   | [] => PrEnd args buf
@@ -242,30 +262,24 @@ Fixpoint proc_repl (ps : list spelling) (prev rest : list tok) (shp : option nat
               let arg := nth i args [] in
               match shp with
               | Some p =>
-                  let arg' := strip_ws1 arg in
-                  proc_repl ps (t :: prev) rest' None (set_nth i arg' args)
-                            (add_token (firstn p buf) (stringify_toks arg'))
+                  let arg' := strip_ws old arg in
+                  proc_repl old ps (t :: prev) rest' None (set_nth i arg' args)
+                            (add_token (firstn p buf) (stringify_toks old arg'))
               | None =>
                   if paste_operand prev rest' then
-                    if empty_arg arg then proc_repl ps (t :: prev) rest' None args (add_token buf TPlm)
-                    else proc_repl ps (t :: prev) rest' None args (add_tokens buf arg)
+                    if empty_arg arg then proc_repl old ps (t :: prev) rest' None args (add_token buf TPlm)
+                    else proc_repl old ps (t :: prev) rest' None args (add_tokens buf arg)
                   else PrArg i (t :: prev) rest' args buf
               end
-          | None => proc_repl ps (t :: prev) rest' None args (add_token buf t)
+          | None => proc_repl old ps (t :: prev) rest' None args (add_token buf t)
           end
-      | TSp => proc_repl ps (t :: prev) rest' shp args (add_token buf t)
-      | _ => proc_repl ps (t :: prev) rest' (if is_punct sharp t then Some (length buf) else None) args
+      | TSp => proc_repl old ps (t :: prev) rest' shp args (add_token buf t)
+      | _ => proc_repl old ps (t :: prev) rest' (if is_punct sharp t then Some (length buf) else None) args
                        (add_token buf t)
       end
   end.
 
 (* ---------- find_args ---------- *)
-(* [single_eor] = the behaviour before fixes/C09-6.patch: at most one end-of-replacement marker is
-   crossed per token read.  [nl_no_arg] = before fixes/C09-7.patch: `F(<newline>)` of a macro
-   without parameters is one argument. *)
-Record quirks := mkq { q_single_eor : bool; q_nl_no_arg : bool }.
-Definition fixed : quirks := mkq false false.
-
 Inductive fa_result :=
 | FaOk (rest : list tok) (cs : list mcall) (ig : list spelling) (args : list (list tok))
 | FaBad (why : nat).
@@ -324,10 +338,10 @@ Definition out_tok (s : state) (r : list tok) (t : tok) (n : bool) : state :=
   mkst r (t :: out s) (calls s) (ign s) n.
 
 (* process_replacement (mc) with mc on top of the stack [cs] *)
-Definition run_repl (r out0 : list tok) (mc : mcall) (cs : list mcall) (ig : list spelling) : res :=
-  match proc_repl (mc_params mc) (mc_prev mc) (mc_rest mc) None (mc_args mc) (mc_buf mc) with
+Definition run_repl (q : quirks) (r out0 : list tok) (mc : mcall) (cs : list mcall) (ig : list spelling) : res :=
+  match proc_repl (q_plm_ws q) (mc_params mc) (mc_prev mc) (mc_rest mc) None (mc_args mc) (mc_buf mc) with
   | PrEnd args buf =>
-      match do_concat buf with
+      match do_concat (q_plm_ws q) buf with
       | Some l => Next (mkst (l ++ TEor :: r) out0
                              (mkmc (mc_name mc) (mc_params mc) [] [] args buf :: cs)
                              (mc_name mc :: ig) false)
@@ -355,7 +369,7 @@ Definition step (q : quirks) (d : defs) (s : state) : res :=
                   | mc :: cs =>
                       match split_boa (out s) [] with
                       | Some (a, out0) =>
-                          run_repl r out0 (mkmc (mc_name mc) (mc_params mc) (mc_prev mc) (mc_rest mc) (mc_args mc)
+                          run_repl q r out0 (mkmc (mc_name mc) (mc_params mc) (mc_prev mc) (mc_rest mc) (mc_args mc)
                                                 (add_tokens (mc_buf mc) a)) cs (ign s)
                       | None => Bad 3
                       end
@@ -369,7 +383,7 @@ Definition step (q : quirks) (d : defs) (s : state) : res :=
                 else
                   match m_params m with
                   | None =>
-                      match do_concat (add_tokens [] (m_body m)) with
+                      match do_concat (q_plm_ws q) (add_tokens [] (m_body m)) with
                       | Some l => Next (mkst (l ++ TEor :: r) (out s)
                                              (mkmc name [] [] [] [] [] :: calls s) (name :: ign s) false)
                       | None => Bad 21
@@ -382,7 +396,7 @@ Definition step (q : quirks) (d : defs) (s : state) : res :=
                             match find_args q (tl i) cs ig (length ps) (variadic ps) 0
                                             ((length ps =? 1) && variadic ps) [] [] false false with
                             | FaOk rest cs' ig' args =>
-                                run_repl rest (out s) (mkmc name ps [] (m_body m) args []) cs' ig'
+                                run_repl q rest (out s) (mkmc name ps [] (m_body m) args []) cs' ig'
                             | FaBad w => Bad w
                             end
                           else                        (* no '(': not a macro call *)
